@@ -17,7 +17,7 @@ def run(tier, seed):
     T = 90 if tier == "quick" else 300
     chk.bounds = {'stored series': 'symbolic int list, length 1..4', 'cutoff': 'None or 0..5 (argument or Model.TimeSeriesCutoff)',
                   'calls': '1..3, caller mutating the returned list or not', 'series group': ['main', 'step', 'initial'],
-                  'rendering': 'ragged lengths 0..3 per series, 1..3 repeated renders; BaseSolver variable list with t at every position',
+                  'rendering': 'ragged lengths 0..3 per series, 1..3 repeated renders; every sequence of <= 4 renders interleaved over the three series groups (main, step trace, initial steady state); BaseSolver variable list with t at every position',
                   'per_condition_timeout_s': T}
     chk.assumptions = ['CrossHair models Python ints/lists/bools symbolically (z3); verdict "Confirmed over all paths" = exhaustive within the stated sizes']
     chk.outside = ['series longer than 4', 'more than 3 calls', 'symbolic cell values in the rendered text (formatting realises them)']
